@@ -7,7 +7,11 @@
 //  2. attribution: an endpoint never counts more records than its pattern
 //     covers, and every record is covered by some endpoint;
 //  3. batch invariance: every split run ends with the statistics of the
-//     unsplit run.
+//     unsplit run;
+//  4. restart (collisions.go): every entry held in memory before a restart is
+//     there after it under the same key (method, URL, consumer tag as recorded)
+//     with the same counts; two entries coming back as one =
+//     lost-traffic:restart:key-collision.
 //
 // Persisted timestamps have a resolution of one second (public on-disk
 // format); the property only promises that *totals* survive the disk round
@@ -476,9 +480,11 @@ func monitor(o *c.Out, k *Case) []c.Hit {
 		}
 		if base.Crash != "" && i > 0 {
 			conservation(k, r, add)
+			restartRule(r, add)
 			continue
 		}
 		conservation(k, r, add)
+		restartRule(r, add)
 		if i > 0 {
 			o.MonitorChecked(1)
 			if invariance(k, base, r, add) {
